@@ -97,6 +97,17 @@ static int br_decompress(const unsigned char* in, size_t n, unsigned char* out, 
 	return 2;
 }
 
+// Public layout of BrotliDictionary (brotli/c/common/dictionary.h, 1.0.x).
+typedef struct VBrotliDictionary {
+  uint8_t size_bits_by_length[32];
+  uint32_t offsets_by_length[32];
+  size_t data_size;
+  const uint8_t* data;
+} VBrotliDictionary;
+extern const VBrotliDictionary* BrotliGetDictionary(void);
+static const uint8_t* vdict_data(void) { return BrotliGetDictionary()->data; }
+static size_t vdict_size(void) { return BrotliGetDictionary()->data_size; }
+
 typedef struct { BrotliEncoderState* st; } brenc;
 static brenc* br_enc_new(int quality, int lgwin, int mode, int lgblock, int npostfix, int ndirect) {
 	brenc* e = calloc(1, sizeof(brenc));
@@ -231,4 +242,10 @@ func BrCompress(ops []BrOp, quality, lgwin, mode, lgblock, npostfix, ndirect int
 		out = append(out, buf[:int(p)]...)
 	}
 	return out
+}
+
+// LibBrotliDict returns libbrotlicommon's static dictionary (122,784 bytes).
+func LibBrotliDict() []byte {
+	n := int(C.vdict_size())
+	return C.GoBytes(unsafe.Pointer(C.vdict_data()), C.int(n))
 }
